@@ -134,7 +134,12 @@ func runC06(c *Ctx) {
 			def *ssa.BasicBlock
 		}
 		var drains []drainSel
-		for _, s := range Selects(a.Run) {
+		// Run and the helpers of the package it calls (a drainSink() method, ...)
+		var allSelects []*ssa.Select
+		for _, g := range FindFuncs(a.Run, 2, func(*ssa.Function) bool { return true }) {
+			allSelects = append(allSelects, Selects(g)...)
+		}
+		for _, s := range allSelects {
 			cases := SelectCases(s)
 			hasRecv := false
 			for _, cs := range cases {
@@ -196,7 +201,8 @@ func runC06(c *Ctx) {
 		detail := ""
 		for _, db := range doneBodies {
 			iv := PathQuery{Fn: a.Run, StartBlock: db,
-				Exit: func(b *ssa.BasicBlock) bool { return ExitOf(b) == ExitReturn && !isErrExit(b) },
+				Exit:       func(b *ssa.BasicBlock) bool { return ExitOf(b) == ExitReturn && !isErrExit(b) },
+				CalleeExit: func(b *ssa.BasicBlock) bool { return !isErrExit(b) },
 				Weight: func(in ssa.Instruction) (int, int) {
 					if isDrainDefault[in.Block()] && in == in.Block().Instrs[0] {
 						return 1, 1
@@ -260,11 +266,35 @@ func countCalls(fn *ssa.Function, pred func(ssa.Instruction) bool) Interval {
 func c06Reporter(c *Ctx, aggs []*sampleAggregator) {
 	P := c.P
 	rep := P.Func("core/aggregator", "Reporter", "Report")
-	drop := P.Func("core/aggregator", "Reporter", "dropSample")
 	derr := P.Func("core/aggregator", "Reporter", "DroppedErr")
-	if rep == nil || drop == nil || derr == nil {
-		c.Anchor("O6.3", "core/aggregator.(*Reporter).Report/dropSample/DroppedErr")
+	if rep == nil || derr == nil {
+		c.Anchor("O6.3", "core/aggregator.(*Reporter).Report/DroppedErr")
 		return
+	}
+	// an increment by one of the drop counter (Inc() or Add(1)), wherever it lives (Report itself or a dropSample helper)
+	isInc := func(in ssa.Instruction) bool {
+		cc := CC(in)
+		if cc == nil || len(cc.Args) == 0 {
+			return false
+		}
+		f := CalleeObj(cc)
+		if f == nil {
+			return false
+		}
+		switch f.Name() {
+		case "Inc":
+		case "Add":
+			if k, isC := ConstInt(cc.Args[len(cc.Args)-1]); !isC || k != 1 {
+				return false
+			}
+		default:
+			return false
+		}
+		fv, _ := FieldOf(cc.Args[0])
+		if fa, ok := cc.Args[0].(*ssa.FieldAddr); ok && fv == nil {
+			fv, _ = FieldOf(fa)
+		}
+		return fv != nil && fv.Name() == "samplesDropped"
 	}
 	// Report: one non-blocking select with one send of the parameter to Incomming; default -> dropSample(s) once
 	sels := Selects(rep)
@@ -281,46 +311,25 @@ func c06Reporter(c *Ctx, aggs []*sampleAggregator) {
 				defBody = cs.Body
 			}
 		}
-		isDrop := func(in ssa.Instruction) bool {
-			cc := CC(in)
-			return cc != nil && cc.StaticCallee() == drop && len(cc.Args) == 2 && cc.Args[1] == ssa.Value(rep.Params[1])
+		w := func(in ssa.Instruction) (int, int) {
+			if isInc(in) {
+				return 1, 1
+			}
+			return 0, 0
 		}
 		okDef := false
 		if defBody != nil && sendBody != nil {
-			ivD := PathQuery{Fn: rep, StartBlock: defBody, Weight: func(in ssa.Instruction) (int, int) {
-				if isDrop(in) {
-					return 1, 1
-				}
-				return 0, 0
-			}}.Count()
-			// on the send edge no drop: the drop call must be dominated by the default body
-			onlyDef := true
-			EachInstr(rep, func(in ssa.Instruction) {
-				if isDrop(in) && !(defBody.Dominates(in.Block()) && defBody != sendBody) {
-					onlyDef = false
-				}
-			})
-			okDef = ivD.Is(1, 1) && onlyDef
+			ivD := PathQuery{Fn: rep, StartBlock: defBody, Weight: w}.Count()
+			ivS := PathQuery{Fn: rep, StartBlock: sendBody, Weight: w}.Count()
+			if defBody == sendBody {
+				ivS = Interval{Min: 1, Max: 1}
+			}
+			okDef = ivD.Is(1, 1) && ivS.Is(0, 0)
+			c.Check(okDef, "O6.3", fk(rep)+":default-edge-counts-the-drop-once", rep.Pos(), fmt.Sprintf("increments of the drop counter on the default edge = %v (want [1,1]), on the send edge = %v (want [0,0])", ivD, ivS))
+		} else {
+			c.Bad("O6.3", fk(rep)+":default-edge-counts-the-drop-once", rep.Pos(), "Report's select has no default / send body")
 		}
-		c.Check(okDef, "O6.3", fk(rep)+":default-edge-counts-the-drop-once", rep.Pos(), "the default edge must call dropSample(s) exactly once, the send edge never")
 	}
-	isInc := func(in ssa.Instruction) bool {
-		cc := CC(in)
-		if cc == nil || len(cc.Args) == 0 {
-			return false
-		}
-		f := CalleeObj(cc)
-		if f == nil || (f.Name() != "Inc" && f.Name() != "Add") {
-			return false
-		}
-		fv, _ := FieldOf(cc.Args[0])
-		if fa, ok := cc.Args[0].(*ssa.FieldAddr); ok && fv == nil {
-			fv, _ = FieldOf(fa)
-		}
-		return fv != nil && fv.Name() == "samplesDropped"
-	}
-	iv := countCalls(drop, isInc)
-	c.Check(iv.Is(1, 1), "O6.3", fk(drop)+":counter-incremented-exactly-once", drop.Pos(), fmt.Sprintf("samplesDropped increments per dropSample = %v (want [1,1])", iv))
 	// who else writes samplesDropped
 	{
 		sp := P.SSAPkg("core/aggregator")
@@ -343,7 +352,7 @@ func c06Reporter(c *Ctx, aggs []*sampleAggregator) {
 					return
 				}
 				nW++
-				c.Check(g == drop && (f.Name() == "Inc"), "O6.3", fk(g)+":samplesDropped-writer", in.Pos(), "samplesDropped may only be incremented by one, in dropSample (found "+f.Name()+")")
+				c.Check(isInc(in) && P.WithinOnly(g, func(x *ssa.Function) bool { return x == rep }, 3), "O6.3", fk(g)+":samplesDropped-writer", in.Pos(), "samplesDropped may only be incremented by one, on Report's drop path (found "+f.Name()+")")
 			})
 		}
 		c.Floor("O6.3", "writers of samplesDropped", nW, 1)
